@@ -150,6 +150,17 @@ class Exec:
             _, fn, d, f, v = ev
             self.raw[fn][d][f] = v
             self.sync()
+        elif k == "zero":
+            # (root histories only) a counter restarts from exactly 0: a driver reload / statistics reset of an idle device
+            _, fn, d, f = ev
+            self.raw[fn][d][f] = 0
+            self.sync()
+        elif k == "reset":
+            # (root histories only) EVERY counter of a device that stays present drops at once: a statistics reset of a busy device
+            _, fn, d = ev
+            for i, f in enumerate(self.raw[fn][d]):
+                self.raw[fn][d][f] = min(self.raw[fn][d][f] - 1, 2 + i % 3) if self.raw[fn][d][f] > 0 else 0
+            self.sync()
         elif k == "unplug":
             self.present[ev[1]][ev[2]] = False
             self.sync()
@@ -299,12 +310,47 @@ ROOTS = {
     # start also from states where a device already carries a wrap reminder
     "net": [[["call", "net", True, True], ["set", "net", "y", "bytes_sent", 1], ["call", "net", True, True]],
             # ... the wrap was seen on a later snapshot than the device's second
-            [["call", "net", True, True], ["call", "net", True, True], ["set", "net", "y", "bytes_sent", 1], ["call", "net", True, True]]],
+            [["call", "net", True, True], ["call", "net", True, True], ["set", "net", "y", "bytes_sent", 1], ["call", "net", True, True]],
+            ],
     "disk": [[["call", "disk", True, True], ["set", "disk", "sda1", "read_count", 1], ["call", "disk", True, True]],
              [["call", "disk", True, True], ["call", "disk", True, True], ["set", "disk", "sda1", "read_count", 1],
               ["call", "disk", True, True]]],
     "both": [],
 }
+# short searches (every continuation of <= 2 events) from states outside the value alphabet
+SPECIAL = {
+    # a counter that restarted from exactly 0 (the wrap has been seen; what follows sees 0 again, or a rise)
+    "net": [[["call", "net", True, True], ["zero", "net", "y", "bytes_sent"], ["call", "net", True, True]],
+            # every counter of a device that never left went backwards in one step
+            [["call", "net", True, True], ["reset", "net", "y"]]],
+    "disk": [[["call", "disk", True, True], ["zero", "disk", "sda", "read_count"], ["call", "disk", True, True]],
+             [["call", "disk", True, True], ["reset", "disk", "sda"]]],
+}
+
+
+def _special_task(arg):
+    mode, h = arg
+    r = run_h(h)
+    return [dict(v, case={"history": h, "mode": mode}) for v in r["viols"]], r["enabled"]
+
+
+def special(ctx, mode):
+    """-> (runs, violations)"""
+    global _CFG
+    _CFG = Cfg(ctx.seed, mode, ctx.thorough)
+    ctx.close()
+    viols, n = [], 0
+    level = [(mode, list(r)) for r in SPECIAL[mode]]
+    for depth in range(3):
+        res = ctx.pmap(_special_task, level)
+        n += len(level)
+        nxt = []
+        for (m, h), (vs, en) in zip(level, res):
+            viols += vs
+            if depth < 2:
+                nxt += [(m, h + [e]) for e in en if e[0] in ("call", "set")]
+        level = nxt
+    return n, viols
 
 
 def one(ctx, mode, depth):
@@ -338,6 +384,12 @@ def run(ctx):
                        "new_states_per_level": r["new_states_per_level"]}
         samples += [{"mode": mode, "history": h} for h in sample(r["samples"], 3)]
         capped = capped or r["capped"]
+    if not ctx.alt:
+        for mode in ("net", "disk"):
+            n_, vs_ = special(ctx, mode)
+            viols += vs_
+            tot["transitions"] += n_
+            parts["beyond-the-value-alphabet:" + mode] = {"histories": n_, "starts": SPECIAL[mode]}
     from vf.checks import c10s
     ctx.close()
     sres = c10s.run_s(ctx) if not ctx.alt else {"violations": [], "coverage": {"executions": 0, "transitions": 0}}
